@@ -292,7 +292,7 @@ def check_C08(c):
 def check_C09(c):
     q = c.quick
     inv = ["TypeOK", "CopiesDisjoint", "Emit"]
-    lay = ("C", "T", "Col", "Row") if q else ("C", "T", "Tp", "Row", "Col", "Step", "Mat")
+    lay = ("C", "T", "Col", "Row", "ColT", "TCol") if q else ("C", "T", "Tp", "Row", "Col", "Step", "Mat", "ColT", "StepT", "TCol")
     jobs = [("linalg-mat", dict(MaxDim=2 if q else 3, MaxRankT=2, LayA={S(x) for x in lay}, LayB={S(x) for x in lay},
                                 Modes={S("safe"), S("reuse"), S("incr")},
                                 Kinds={S(x) for x in ("MatMul", "MatVecMul", "Inner", "Outer", "Trace")})),
@@ -345,13 +345,14 @@ def check_C10(c):
 def check_C14(c):
     q = c.quick
     inv = ["TypeOK", "CopiesDisjoint", "Emit"]
-    lays = ("C", "F", "T", "Row", "Col") if q else ("C", "F", "Fconv", "T", "Tp", "FT", "Row", "Col", "Step", "FCol")
+    lays = ("C", "F", "T", "Row", "Col", "FCol", "FT", "Step") if q else ("C", "F", "Fconv", "T", "Tp", "FT", "Row", "Col", "Step", "FCol", "ColT", "TCol")
     k = dict(MinRank=0, MaxRank=3 if q else 4, MaxDim=3 if q else 3, MaxDimHi=2, HiRank=3 if q else 4, Lays={S(x) for x in lays},
              Formats={S(x) for x in ("gob", "npy", "csv", "pb", "fb")}, WithMasks=True)
     cases = c.tlc("MC_io", "io", k, inv)
     c.replay("io", cases, dtypes="all", pals="ident,signed,edge,nonfinite", rotate=6 if q else 0, extra=(["-palrotate", "2"] if q else []))
     c.rep.rule = ("TLC enumerates {gob, npy, csv, protobuf, flatbuffers} x shapes of rank 0-4 incl. scalars and length-one axes x layouts "
-                  "{contiguous, column-major, lazily transposed, contiguous window, inner slice (thorough: more)} and every mask over <=6 "
+                  "{contiguous, column-major, lazily transposed (row- and column-major), contiguous window, inner slice (of a row- and of a "
+                  "column-major base), step slice (thorough: more)} and every mask over <=6 "
                   "elements; the real encoder/decoder pair is run for every element type with palettes containing extremes and non-finite "
                   "values; the decoded tensor must have the same element type, shape, logical elements (and mask where the format carries "
                   "one; the fill value otherwise), or the ENCODER must refuse; bytes that cannot be decoded are a divergence")
@@ -587,20 +588,26 @@ def check_C19(c):
                          "values stay below 2^31 (TLC integers)"]
 
 
-def conc_module(writeset, nprocs, proglen):
-    """MC_conc.tla generated from the write-sets MEASURED on the real code (hook events of every operation of the
-    read-only alphabet run alone): the binding of spec/Conc.tla to the implementation."""
-    shared = sorted({w[1] for ws in writeset.values() for w in ws if w[1] != "?"} | {"M"})
+def conc_module(writeset, poolseq, nprocs, proglen):
+    """MC_conc.tla generated from what was MEASURED on the real code (hook events of every operation of the alphabet run
+    alone): its writes to shared operands and its pool traffic.  This is the binding of spec/Conc.tla to the implementation."""
+    shared = sorted({w[1] for ws in writeset.values() for w in ws if w[0] == "wr" and w[1] != "?"} | {"M"})
     classes = {}
     for op, ws in sorted(writeset.items()):
-        steps = ['<<"rd", "M">>', '<<"get", 1>>']
-        val = 0
+        steps = ['<<"rd", "M">>']
         for w in ws:
+            if w[0] != "wr":
+                continue
             x = w[1] if w[1] != "?" else "M"
             val = 0 if w[2].endswith(":UT") else 1
             steps.append('<<"wr", "%s", %d>>' % (x, val))
             steps.append('<<"rd", "%s">>' % x)
-        steps += ['<<"put", 1>>', '<<"rd", "M">>']
+        seq = [[k, "Dense" if kind == "Tensor" else kind, slot] for k, kind, slot in poolseq.get(op, [])]
+        returned = {(kind, slot) for k, kind, slot in seq if k == "put"}
+        seq = [e for e in seq if (e[1], e[2]) in returned and e[2] <= 8][:10]   # objects the operation never gives back are its results
+        for k, kind, slot in seq:
+            steps.append('<<"%s", "%s", %d>>' % (k, kind, slot))
+        steps.append('<<"rd", "M">>')
         classes.setdefault("<<" + ", ".join(steps) + ">>", []).append(op)
     reps = {v[0]: k for k, v in classes.items()}      # one representative operation per distinct step list
     names = sorted(reps)
@@ -628,9 +635,10 @@ def check_C18(c):
     p = subprocess.run([plain, "-mode", "writeset"], capture_output=True, text=True, env=GOENV, timeout=600)
     if p.returncode != 0:
         raise Infra("conc writeset failed: " + p.stderr[-2000:])
-    writeset = json.loads(p.stdout.strip().splitlines()[-1])
+    measured = json.loads(p.stdout.strip().splitlines()[-1])
+    writeset, poolseq = measured["writes"], measured["pool"]
     # (2) the interleavings of the model built from those measurements
-    text, classes = conc_module(writeset, 2 if q else 3, 2)
+    text, classes = conc_module(writeset, poolseq, 2, 2 if q else 3)
     wd = c.scr.path("conc")
     os.makedirs(wd, exist_ok=True)
     with open(os.path.join(SPEC, "MC_conc.tla.generated"), "w") as f:
@@ -642,7 +650,7 @@ def check_C18(c):
     cfg = c.scr.path("MC_conc.cfg")
     with open(cfg, "w") as f:
         f.write("SPECIFICATION Spec\nCONSTANTS\n  Procs <- MCProcs\n  Shared <- MCShared\n  OpSteps <- MCOpSteps\n  ProgramSet <- MCProgramSet\n"
-                "INVARIANTS SharedNeverWritten NoReadDuringForeignWrite ResultsSequential\nCHECK_DEADLOCK FALSE\n")
+                "INVARIANTS SharedNeverWritten NoReadDuringForeignWrite ResultsSequential PoolExclusive\nCHECK_DEADLOCK FALSE\n")
     tw = c.scr.path("tlc-conc")
     os.makedirs(tw, exist_ok=True)
     for fn in os.listdir(SPEC):
@@ -660,7 +668,7 @@ def check_C18(c):
     c.rep.transitions += int(m.group(1))
     c.rep.states += int(m.group(2))
     writers = {op: ws for op, ws in writeset.items() if ws}
-    c.rep.parts.append({"conc_model": "MC_conc generated from measured write-sets", "operations": len(writeset),
+    c.rep.parts.append({"conc_model": "MC_conc generated from the measured write-sets and pool traffic", "operations": len(writeset),
                         "step_list_classes": {k: v for k, v in classes.items()}, "tlc_states": int(m.group(2)),
                         "operations_that_write_shared_operands": writers})
     outdir = os.path.join(OUT, c.pid)
@@ -669,9 +677,9 @@ def check_C18(c):
         # the verdict comes from the real code: the hooks recorded a write to a shared operand
         for op, ws in writers.items():
             c.rep.divs.append({"cmd": "conc", "div": {"case": "writeset", "fam": "conc", "dt": "float64", "pal": "-", "cfg": "default", "step": 0,
-                               "op": op, "kind": "shared-write",
-                               "detail": "running %s alone wrote the metadata of shared operand(s): %s; TLC on the model built from these "
-                                         "measurements: %s" % (op, ws[:4], "invariant %s violated" % violated.group(1) if violated else "no invariant violated"),
+                               "op": op, "kind": "pool-protocol" if all(w[0] == "pool" for w in ws) else "shared-write",
+                               "detail": "running %s alone, the hooks recorded: %s; TLC on the model built from these measurements (writes to "
+                                         "shared operands and pool traffic): %s" % (op, ws[:3], "invariant %s violated" % violated.group(1) if violated else "no invariant violated"),
                                "path": op, "tags": []}, "case": {"writeset": ws}})
     elif "No error has been found" not in r.stdout:
         raise Infra("TLC on MC_conc did not complete:\n" + r.stdout[-2000:])
@@ -718,15 +726,17 @@ def check_C18(c):
             c.rep.divs.append({"cmd": "conc", "args": args, "div": {"case": "nondet", "fam": "conc", "dt": "float64", "pal": "-", "cfg": "race",
                                "step": 0, "op": "result", "kind": "nondeterministic", "detail": "; ".join(lines[:3])[:800], "path": " ".join(args), "tags": []},
                                "case": {"lines": lines[:20]}})
-    c.rep.samples = [{"write_sets_measured": writeset}, {"generated_module": text[:1500]}]
+    c.rep.samples = [{"write_sets_measured": writeset, "pool_traffic_measured": {k: v[:10] for k, v in list(poolseq.items())[:12]}}, {"generated_module": text[:1500]}]
     c.rep.exhaustive = False
     c.rep.rule = ("(1) every operation of a %d-operation alphabet (element access, slicing, iteration, safe arithmetic and "
                   "comparison, reductions, products incl. the dispatching Dot, cloning, materialising, formatting, repeat/concat, and operations "
                   "on the goroutine's OWN tensors: reuse / reshaped-reuse / wrong-size reuse / incr destinations, in-place results, same-type "
                   "comparisons, products into own destinations, recycling own tensors through ReturnTensor, own views) is run ALONE on shared tensors {contiguous, lazily transposed, sliced view, vectors} with the metadata hooks "
-                  "on, and its writes to shared operands are recorded; (2) spec/Conc.tla is instantiated with exactly these measured step "
-                  "lists (MC_conc, generated) and TLC explores every interleaving of 2-3 goroutines x programs of <=2 operations, checking "
-                  "SharedNeverWritten, NoReadDuringForeignWrite and ResultsSequential; (3) 2-16 goroutines run seeded random programs over "
+                  "on, and its writes to shared operands and its traffic with the option / scalar-header / tensor-struct pools are recorded "
+                  "(an object handed back twice is reported at once); (2) spec/Conc.tla is instantiated with exactly these measured step "
+                  "lists (MC_conc, generated) and TLC explores every interleaving of 2 goroutines x programs of <=2 (thorough 3) operations, "
+                  "checking SharedNeverWritten, NoReadDuringForeignWrite, ResultsSequential and PoolExclusive (no pooled object in the "
+                  "hands of two goroutines); (3) 2-16 goroutines run seeded random programs over "
                   "the shared tensors plus private ones under the race detector with GOMAXPROCS in {1,2,4,16} and injected yields, every "
                   "result compared with the result of the same program run alone; plus a pairwise stress of all operation pairs") % len(writeset)
     c.rep.assumptions = ["that the code has no shared accesses other than the hooked metadata writes is observed by the Go race detector, not proved",
